@@ -294,7 +294,11 @@ func (p *PALS) Align(complement bool) (dp.Hits, error) {
 	p.notifyf("Identified %d filter hits", p.morass.Len())
 
 	p.notify("Merging")
-	merger := filter.NewMerger(p.index, working, p.FilterParams, p.MaxIGap, p.selfCompare)
+	// In a self comparison the filter has already discarded the redundant half
+	// of the comparison. For the complement strand that half lies on one side
+	// of the anti-diagonal, so the merger must not also discard the hits
+	// below the main diagonal.
+	merger := filter.NewMerger(p.index, working, p.FilterParams, p.MaxIGap, p.selfCompare && !complement)
 	var h filter.Hit
 	for {
 		if err = p.morass.Pull(&h); err != nil {
